@@ -5,5 +5,5 @@ Extraction "model.ml"
   ieee_round ieee_rne decode_spec frac_of to_prim_spec float_to_int_spec exact_to_float rat_to_int_spec
   rat_trunc_spec flag_of_error int_round_spec rat_to_fbig_spec
   decode_asis encode_asis ubig_to_float ibig_to_float int_try_to_float float_try_to_int
-  ubig_to_prim ibig_to_prim prim_to_ubig prim_to_ibig rat_to_float
+  ubig_to_prim ibig_to_prim prim_to_ubig prim_to_ibig rat_to_float rat_to_float_fast
   fbig2_to_float fbig_to_float rat_to_fbig rat_to_fbig_twice.
